@@ -33,7 +33,17 @@ def defined_lemma(repo):
     n = 0
     src = ast.unparse(fi.node)
     # which group does replace_defined read?
-    grp = 2 if "match.group(2) in defs" in src else (1 if "match.group(1) in defs" in src else None)
+    grp = None
+    for nd in ast.walk(fi.node):
+        if (isinstance(nd, ast.Compare) and len(nd.ops) == 1 and isinstance(nd.ops[0], (ast.In, ast.NotIn))
+                and ast.unparse(nd.comparators[0]) == "defs" and isinstance(nd.left, ast.Call) and isinstance(nd.left.func, ast.Attribute)
+                and nd.left.func.attr == "group" and len(nd.left.args) == 1 and isinstance(nd.left.args[0], ast.Constant)
+                and nd.left.args[0].value in (1, 2)):
+            grp = nd.left.args[0].value
+            break
+    if grp is None:
+        return Item("C08/replace_defined/paren_neutral", "refuted", "structural", 0.0, where=fi.where(), mode="table", func=fi.qualname,
+                    shape=True, detail="replace_defined no longer tests `<match>.group(n) in defs`: the operand group cannot be identified")
     for ln in range(1, 6):
         for tup in itertools.product(toks, repeat=ln):
             line = "".join(tup)
